@@ -20,9 +20,9 @@ PAGE = 65536
 
 
 def build(rnd, shape):
-    mn, mx = shape
+    mn, mx = shape[0], shape[1]
     m = Module()
-    m.mems.append((mn, mx, False))
+    m.mems.append((mn, mx, len(shape) > 2 and shape[2] == 'shared'))
     m.exports.append(('mem', 'memory', 0))
     funcs = []  # (name, kind, flavour, offset, width)
     offs_pool = [0, 0, 1, 2, 3, 4, 7, 8, 15, 16, 255, 4095, 65528, 65535, 65536, 65537, 131072 - 8]
@@ -67,7 +67,7 @@ def build(rnd, shape):
 
 
 def history(rnd, plan, funcs, segs, shape, nops):
-    mn, mx = shape
+    mn, mx = shape[0], shape[1]
     pages = mn
     limit = mx if mx is not None else 65536
     lines = ['I 0', 'm 0 0']
@@ -158,7 +158,8 @@ def history(rnd, plan, funcs, segs, shape, nops):
     return '\n'.join(lines) + '\n', cls
 
 
-SHAPES = [(0, 0), (0, 1), (0, None), (1, 1), (1, 2), (1, 8), (2, 2), (2, 5), (3, 8), (1, None), (2, None), (0, 3), (3, 3), (1, 65536), (2, 1000)]
+SHAPES = [(0, 0), (0, 1), (0, None), (1, 1), (1, 2), (1, 8), (2, 2), (2, 5), (3, 8), (1, None), (2, None), (0, 3), (3, 3), (1, 65536), (2, 1000),
+          (1, 4, 'shared'), (0, 2, 'shared'), (2, 2, 'shared'), (1, 30, 'shared')]
 
 
 def probes(chk, w2c2):
@@ -243,7 +244,7 @@ def main(chk):
         outs = {}
         if st == 'ok':
             for tag, cc, cflags in builds:
-                outs[tag] = e2e.build_and_run(w2c2, b, plan, script, os.path.join(d, tag), cc=cc, cflags=cflags, timeout=600)[:2]
+                outs[tag] = e2e.build_and_run(w2c2, b, plan, script, os.path.join(d, tag), cc=cc, cflags=cflags, cdefs=['-DWASM_THREADS_PTHREADS'], link=['-lpthread'], timeout=600)[:2]
         shutil.rmtree(d, ignore_errors=True)
         return k, shape, b, script, cls, st, ref, outs, plan
 
@@ -280,13 +281,15 @@ def main(chk):
                 opname = plan.exports[p[1]]['name'] if p else '?'
                 opname = opname.split('_')[1] if '_' in opname else opname.rstrip('0123456789')
                 key = 'C05:%s:%s' % (kind, opname)
-                if shape == (0, 0):
+                if shape[:2] == (0, 0):
                     key += ':max0'
+                if len(shape) > 2:
+                    key += ':shared'
                 if key in seen:
                     continue
                 seen.add(key)
-                chk.violation(key, 'history %d shape (memory %s %s) build %s line %d after "%s": reference "%s" vs compiled "%s"' % (
-                    k, shape[0], shape[1], tag, i, ref[j][:120], ra[:200], rb[:200]),
+                chk.violation(key, 'history %d shape (memory %s) build %s line %d after "%s": reference "%s" vs compiled "%s"' % (
+                    k, ' '.join(str(x) for x in shape), tag, i, ref[j][:120], ra[:200], rb[:200]),
                     dict(files, reference_out='\n'.join(ref), compiled_out='\n'.join(out)))
         if k < 2:
             chk.sample({'history': k, 'shape': shape, 'ops': script.splitlines()[2:8]})
